@@ -33,8 +33,8 @@ from vlib import strat as S
 PROPERTY = "C30"
 LEVEL = "exploration"
 RULE = ("Generated distribution parameters (dyadic, documented ranges; scalars, arrays, fields, pytrees; every "
-        "documented parametrisation) and 27 probabilities + a 33-point grid per case (log-spaced tails down to 1e-12 on both sides, "
-        "linear grid, fixed extremes and median), latent value xi = Phi^-1(p); oracle = scipy.stats "
+        "documented parametrisation) and 27 probabilities + a 33-point grid per case (log-spaced tails down to "
+        "1e-12 on both sides, linear grid, fixed extremes and median), latent value xi = Phi^-1(p); oracle = scipy.stats "
         "ppf/isf of the documented target distribution, closed-form log-normal moments, round trips, monotony on "
         "a generated sorted grid (spacing 2^-3 .. 2^-36), classic-vs-JAX differential.")
 LEVEL_TEXT = ("Search over generated parameters and probabilities: every case compares the transform at 60 latent "
@@ -63,7 +63,7 @@ ASSUMPTIONS = [
     "BetaOperator: (a,b) pairs for which SciPy's own beta.ppf table is broken are excluded (SciPy defect, "
     "e.g. a=0.5,b=3: ppf(1e-8)=0.5)",
     "monotony: non-decreasing up to 4 ulp of the output on the sorted grid, strictly increasing wherever the "
-    "exact increment exceeds 1000 ulp of the output",
+    "exact increment exceeds 1000 ulp of the output and the increment of Phi(xi) exceeds 1000 ulp of Phi(xi)",
 ]
 
 EPS53 = 2.0 ** -53
@@ -855,26 +855,26 @@ SUBS = [
              "(loc, scale, defaults): value == scipy quantile, .inverse on the exact quantile and round trip, "
              "monotone grid; " + NT),
     Sub(name="cl_interpolated", check=check_cl_interp, strategy=cl_interp_recipes, quick=960, thorough=40000,
-        shards=4,
+        shards=3,
         rule="InverseGammaOperator (alpha,q | mode,mean; q scalar or Field), LogInverseGammaOperator, "
              "GammaOperator (alpha,theta | alpha,beta | mean,var; Field scale), BetaOperator; delta in "
              "{2.5e-3..5e-2} or default: value == scipy quantile within the linear-interpolation bound of the "
              "given delta, monotone grid; " + NT),
-    Sub(name="re_closed_form", check=check_re_closed, strategy=re_closed_recipes, quick=960, thorough=40000,
-        shards=4, jax=True,
+    Sub(name="re_closed_form", check=check_re_closed, strategy=re_closed_recipes, quick=800, thorough=40000,
+        shards=2, jax=True, budget_quick=150.0,
         rule="normal/lognormal/uniform/laplace _prior functions and NormalPrior/LogNormalPrior/UniformPrior/"
              "LaplacePrior models (named or not, eager and jit), scalar / array / jft.Vector parameters: value == "
              "scipy quantile; normal_invprior, lognormal_invprior on the exact quantile and round trip; "
              "re lognormal_moments against the closed-form moments; monotone grid; " + NT),
-    Sub(name="re_invgamma", check=check_re_invgamma, strategy=re_invgamma_recipes, quick=640, thorough=30000,
-        shards=3, jax=True,
+    Sub(name="re_invgamma", check=check_re_invgamma, strategy=re_invgamma_recipes, quick=600, thorough=30000,
+        shards=2, jax=True, budget_quick=150.0,
         rule="invgamma_prior / InvGammaPrior with generated a, scale (scalar or array), loc (0, positive, "
              "negative), step in {2.5e-3..1e-1} or default: value == scipy invgamma quantile within the "
              "linear-interpolation bound of the given step; invgamma_invprior on the exact quantile and round "
              "trip; monotone grid; array scale with loc raises TypeError; non-trivial = all relations ran "
              "(not the TypeError case)"),
-    Sub(name="classic_vs_jax", check=check_pair, strategy=pair_recipes, quick=400, thorough=20000, shards=2,
-        jax=True,
+    Sub(name="classic_vs_jax", check=check_pair, strategy=pair_recipes, quick=400, thorough=20000, shards=1,
+        jax=True, budget_quick=150.0,
         rule="same distribution, same parameters, same latent values through the classic operator and the "
              "nifty.re prior model (normal, lognormal incl. both lognormal_moments, uniform, laplace, inverse "
              "gamma with the same table step): results agree within the sum of the two stated tolerances; " + NT),
